@@ -235,3 +235,120 @@ class find_files:
     def post_every_match_once(result, directory, recursive):
         lists = directory.deep if recursive else directory.flat
         return conj(len(result) == len(lists[0]) + len(lists[1]), list(result) == lists[0] + lists[1])
+
+
+# ------------------------------------------------------------------------------------------------ the command-line handlers
+from pyvc.ghost import uf_bool, uf_str, fresh_list
+A_PATH = ('A-path: pathlib.Path(text) is a value determined by the text; is_file and with_suffix are functions of that text and str() '
+          'returns it; glob / rglob as in A-glob')
+
+
+class PathStub:
+    def __init__(self, text):
+        self.text = text
+
+    def __str__(self):
+        return self.text
+
+    def is_file(self):
+        return uf_bool('path.is_file', self.text)
+
+    def with_suffix(self, suffix):
+        return PathStub(uf_str('path.with_suffix', self.text, suffix))
+
+    def glob(self, pattern):
+        return ghost_get('glob')[0] if pattern in ('*.krn', '*.ekrn') else ghost_get('glob')[1]
+
+    def rglob(self, pattern):
+        return ghost_get('rglob')[0] if pattern in ('*.krn', '*.ekrn') else ghost_get('rglob')[1]
+
+
+@contract('pathlib.Path', props=['C20'], name='pathlib_path', local=True, assumed=A_PATH)
+class pathlib_path:
+    def model(args):
+        return PathStub(args[0])
+
+
+class ArgsStub:
+    def __init__(self, input_path, output_path, recursive):
+        self.input_path, self.output_path, self.recursive, self.verbose = input_path, output_path, recursive, 0
+
+
+def converter_summary(name):
+    """the converter called by a handler: its two arguments are recorded, in call order"""
+    def model(a, b):
+        ghost_get('converter calls').append((a, b))
+        return None
+    return model
+
+
+@contract('kernpy.core.exporter.kern_to_ekern', props=['C20'], name='kern_to_ekern_summary', local=True,
+          assumed='abstraction of kern_to_ekern(input_file, output_file) (verified by contract kern_to_ekern): converts one file into another')
+class kern_to_ekern_summary:
+    def model(input_file, output_file):
+        ghost_get('converter calls').append((input_file, output_file))
+        return None
+
+
+@contract('kernpy.core.exporter.ekern_to_krn', props=['C20'], name='ekern_to_krn_summary', local=True,
+          assumed='abstraction of ekern_to_krn(input_file, output_file) (verified by contract ekern_to_krn)')
+class ekern_to_krn_summary:
+    def model(input_file, output_file):
+        ghost_get('converter calls').append((input_file, output_file))
+        return None
+
+
+def handler_inputs(g):
+    def files(name):
+        return g.seq(name, lambda e: PathStub(e.str_sym('text', ['d/a.krn', 'd/sub/a.krn'])))
+    ghost_set('glob', [files('flat0'), files('flat1')])
+    ghost_set('rglob', [files('deep0'), files('deep1')])
+    ghost_set('converter calls', fresh_list())
+    out = g.choice('output', ['none', 'given'])
+    return {'args': ArgsStub(g.str_sym('input', ['d/a.krn', 'd']), None if out == 'none' else g.str_sym('out', ['x.out']), g.bool('recursive')),
+            '_out_given': out == 'given'}
+
+
+def handler_post(args, out_given, suffix):
+    calls = ghost_get('converter calls')
+    src = args.input_path
+    if uf_bool('path.is_file', src):
+        # one file: converted into the given output file, or into the file of the same name with the converter's suffix
+        if out_given:
+            g_ok = len(args.output_path) > 0
+            dst = args.output_path if g_ok else uf_str('path.with_suffix', src, suffix)
+        else:
+            dst = uf_str('path.with_suffix', src, suffix)
+        return conj(len(calls) == 1, calls[0][0] == src, calls[0][1] == dst)
+    # a directory: every match of the two patterns (of the whole tree with -r), each converted into its own sibling file
+    lists = ghost_get('rglob') if args.recursive else ghost_get('glob')
+    want = [(f.text, uf_str('path.with_suffix', f.text, suffix)) for f in lists[0]] + [(f.text, uf_str('path.with_suffix', f.text, suffix)) for f in lists[1]]
+    return list(calls) == want
+
+
+@contract('kernpy.__main__.handle_kern2ekern', props=['C20'])
+class handle_kern2ekern:
+    """C20 (the command line converts what the API converts): a file argument is handed to kern_to_ekern with the requested output (or
+    the same path with the suffix .ekrn); a directory argument: every *.krn / *.kern file of it (of its whole tree with -r), each
+    exactly once, into its own .ekrn sibling"""
+    uses = ('kern_to_ekern_summary', 'pathlib_path')
+    assumes = (A_PATH, A_GLOB)
+
+    def inputs(g):
+        return handler_inputs(g)
+
+    def post_converts_exactly_the_requested_files(args, out_given):
+        return handler_post(args, out_given, '.ekrn')
+
+
+@contract('kernpy.__main__.handle_ekern2kern', props=['C20'])
+class handle_ekern2kern:
+    """as handle_kern2ekern, for *.ekrn / *.ekern files and the suffix .krn"""
+    uses = ('ekern_to_krn_summary', 'pathlib_path')
+    assumes = (A_PATH, A_GLOB)
+
+    def inputs(g):
+        return handler_inputs(g)
+
+    def post_converts_exactly_the_requested_files(args, out_given):
+        return handler_post(args, out_given, '.krn')
